@@ -36,14 +36,24 @@ class NameMappingRequest(LocatedRequest[Optional[KeyPath]]):
     generated_key: Key
 
 
+def _to_plain_key(key: Key) -> Key:
+    # keys are rendered into generated code by repr(), an instance of a subclass (a member of enum with str mixin)
+    # has repr of its own, so it is replaced by the plain value
+    if isinstance(key, str) and type(key) is not str:
+        return str.__str__(key)
+    if isinstance(key, int) and type(key) is not int:
+        return int.__int__(key)
+    return key
+
+
 def resolve_map_result(generated_key: Key, map_result: MapResult) -> Optional[KeyPath]:
     if map_result is None:
         return None
     if isinstance(map_result, (str, int)):
-        return (map_result, )
+        return (_to_plain_key(map_result), )
     if isinstance(map_result, EllipsisType):
         return (generated_key,)
-    return tuple(generated_key if isinstance(key, EllipsisType) else key for key in map_result)
+    return tuple(generated_key if isinstance(key, EllipsisType) else _to_plain_key(key) for key in map_result)
 
 
 class NameMappingProvider(MethodsProvider, ABC):
